@@ -12,7 +12,8 @@ function `Book.update`); each monitor is the bookkeeping plus one check (`ofChec
                  await completing by result returns that call's value and error;
 * `monC11why`  — an await that returns without a result has a reason: its context was cancelled or
                  its own channel fired (and it returns what that channel dictates);
-* `monC11cur`  — a container awaiter returns the result of a promise that was current during the call;
+* `monC11cur`  — a container awaiter returns the result of a promise that was current during the call
+                 (and returns through its own channel only if the container was empty during the call);
 * `monC11live` — at a quiescence point no awaiter is pending although a result is available, its
                  context is cancelled or (plain promise / empty container) its channel fired; and the
                  process did not burn CPU while awaiters were blocked;
@@ -204,15 +205,22 @@ def chkWhy (b : Book) : Obs → Bool
     match b.calls[t]? with
     | some c => match c.kind with
       | .await _ k => (e = .canceled && c.cx) || usrPlain k c.ch = some (0, e)
-      | .cawait k => (e = .canceled && c.cx) || (usrNil k c.ch = some (0, e) && c.seen.contains none)
+      | .cawait k => (e = .canceled && c.cx) || usrNil k c.ch = some (0, e)
       | _ => false
     | none => false
   | _ => true
 
 /-- a container awaiter's result belongs to a promise that was current during the call -/
 def chkCur (b : Book) : Obs → Bool
-  | .retAwait t v _ =>
-    if v = 0 then true else
+  | .retAwait t v e =>
+    if v = 0 then
+      -- returned through its own channel: only possible while the container was empty
+      match b.calls[t]? with
+      | some c => match c.kind with
+        | .cawait _ => (e = .canceled && c.cx) || c.seen.contains none
+        | _ => true
+      | none => true
+    else
     match b.calls[t]?, b.calls[v - 1]? with
     | some c, some w => match c.kind, w.kind with
       | .cawait _, .set p _ => c.seen.contains (some (.plain p))
